@@ -2,6 +2,7 @@ import QtyModel.Oracle
 import QtyModel.Generated.Catalogue
 import QtyModel.Generated.Astro
 import QtyModel.Generated.Synth
+import QtyModel.Generated.SynthBig
 import QtyModel.SIPrefix
 import QtyModel.Spec.SI
 import QtyModel.UnitSpec
@@ -157,7 +158,7 @@ def buildWorld {A} (R : Arith A) (isF64 : Bool) (custom : Option (List RawItem) 
     match custom with
     | some items => [("S:", items)]
     | none =>
-      [("", Gen.Catalogue.items), ("S:", Gen.Synth.items)] ++
+      [("", Gen.Catalogue.items), ("S:", Gen.Synth.items), ("S:", Gen.SynthBig.items)] ++
       (if isF64 then [("A:", Gen.Astro.items)] else [])
   let step (w : World A) (pfx : String) (it : RawItem) : World A :=
     let nm := pfx ++ Text.toString it.name
